@@ -26,6 +26,7 @@ inductive E
   | add (a b : E) | sub (a b : E) | mul (a b : E) | div (a b : E)
   | max (a b : E) | min (a b : E)
   | ifpos (c a b : E)
+  | ifzero (c a b : E)      -- `a` if `c = 0` else `b`
   | usum (e : E)            -- Σ_k e
   | wsum (e : E)            -- Σ_k w_k e
   | kmax (e : E)
@@ -51,6 +52,7 @@ def eval (G : Gr) : List Nat → E → Rat
   | env, .max a b => Max.max (eval G env a) (eval G env b)
   | env, .min a b => Min.min (eval G env a) (eval G env b)
   | env, .ifpos c a b => if 0 < eval G env c then eval G env a else eval G env b
+  | env, .ifzero c a b => if eval G env c = 0 then eval G env a else eval G env b
   | env, .usum e => ((List.range G.n).map fun k => eval G (k :: env) e).sum
   | env, .wsum e => ((List.range G.n).map fun k => G.w k * eval G (k :: env) e).sum
   | env, .kmax e => maxList ((List.range G.n).map fun k => eval G (k :: env) e)
@@ -95,6 +97,24 @@ def totalWeight : E := .wsum (c 1)
 def nsiDegree : E := .wsum (.aplus 1 0)
 def nsiLocalClustering : E :=
   .wsum (.wsum (.aplus 2 1 *ₑ .aplus 1 0 *ₑ .aplus 0 2)) /ₑ (nsiDegree *ₑ nsiDegree)
+/-- shortest-path betweenness by pair dependencies (Freeman / Brandes): with `σ` = number of
+shortest paths (pairwise matrix 1, carried with the nodes) and `d` the distances,
+`b_v = Σ_{s≠v} Σ_{t≠v, t≠s} [d(s,v)+d(v,t) = d(s,t)] σ(s,v) σ(v,t) / σ(s,t)` over reachable
+pairs; env `[v]`; inside, `s` is variable 1 and `t` variable 0 (`v` variable 2). -/
+def betweenness : E :=
+  .usum (.usum (
+    (c 1 -ₑ .delta 1 2) *ₑ (c 1 -ₑ .delta 0 2) *ₑ (c 1 -ₑ .delta 0 1) *ₑ
+    .conn 1 0 *ₑ .conn 1 2 *ₑ .conn 2 0 *ₑ
+    .ifzero (.dist 1 2 +ₑ .dist 2 0 -ₑ .dist 1 0)
+      (.la 1 1 2 *ₑ .la 1 2 0 /ₑ .la 1 1 0) (c 0)))
+/-- `Network.interregional_betweenness(sources = group 0, targets = group 1)` -/
+def interregionalBetweenness : E :=
+  .usum (.usum (
+    .grp 0 1 *ₑ .grp 1 0 *ₑ
+    (c 1 -ₑ .delta 1 2) *ₑ (c 1 -ₑ .delta 0 2) *ₑ (c 1 -ₑ .delta 0 1) *ₑ
+    .conn 1 0 *ₑ .conn 1 2 *ₑ .conn 2 0 *ₑ
+    .ifzero (.dist 1 2 +ₑ .dist 2 0 -ₑ .dist 1 0)
+      (.la 1 1 2 *ₑ .la 1 2 0 /ₑ .la 1 1 0) (c 0)))
 def crossDegree : E := .usum (.grp 1 0 *ₑ .adj 1 0)
 def crossLinkDensity : E :=
   .usum (.grp 0 0 *ₑ crossDegree) /ₑ (.usum (.grp 0 0) *ₑ .usum (.grp 1 0))
@@ -114,7 +134,8 @@ def all : List (String × Nat × E) := [
   ("global_efficiency", 0, globalEfficiency), ("outstrength", 1, strength),
   ("total_node_weight", 0, totalWeight), ("nsi_degree", 1, nsiDegree),
   ("nsi_local_clustering", 1, nsiLocalClustering), ("cross_degree", 1, crossDegree),
-  ("cross_link_density", 0, crossLinkDensity)]
+  ("cross_link_density", 0, crossLinkDensity), ("betweenness", 1, betweenness),
+  ("interregional_betweenness", 1, interregionalBetweenness)]
 end M
 
 end Pyunicorn.Equiv
